@@ -358,3 +358,46 @@ def format_precision(ctx):
         capped = cap is not None and all(g == cap for _, g, _ in lost)
         ctx.violate(q, 'default decimals %s: denominators %s print fewer decimals than one smallest unit needs' % ('are capped at %s' % cap if capped else 'are too few', [s for s, _, _ in lost]), caps[0] if capped else asg[0],
                     "Value.from_satoshi(123456789012).str_auto() is '1.23456789 kBTC', which parses back to 123456789000")
+
+
+@PROP.obligation('C17.symbol-lookup', canaries=[
+    mut.replace_expr('values', 'Value.__init__', 'symb == denominator', 'symb == denominator[:len(symb)] and len(symb)', 'denominator argument matched by prefix'),
+    mut.replace_expr('values', 'Value.str', 'len(dens) > 1', 'len(dens) > 2', 'ambiguous prefixes of the str() denominator not resolved exactly'),
+])
+def symbol_lookup(ctx):
+    """The denominator given as a SYMBOL (argument of Value(), Value.from_satoshi() and Value.str()) is looked up in
+    NETWORK_DENOMINATORS. The look-up code of the three functions is evaluated for every symbol of the table: it must select exactly
+    that symbol's denominator ('da' is 10, not the 0.1 of its prefix 'd')."""
+    tab = _table(ctx)
+    it_tab = {float(k) if k.denominator != 1 else int(k): s for k, s in tab}
+    n = 0
+    for q in ('values:Value.__init__', 'values:Value.from_satoshi', 'values:Value.str'):
+        fn = ctx.repo.func(q)
+        blks = [b for b in ast.walk(fn) if isinstance(b, ast.If) and norm(b.test) == 'isinstance(denominator, str)']
+        if len(blks) != 1:
+            ctx.undecided('%s: look-up of a denominator symbol not found' % q)
+        wrong = []
+        for den, sym in it_tab.items():
+            if not sym:
+                continue
+            it = Interp(ctx.repo, 'values', self_cls='values:Value')
+            it.consts = dict(it.consts)
+            it.consts['NETWORK_DENOMINATORS'] = dict(it_tab)
+            st = State(env={'self': S(SELF), 'denominator': sym})
+            it.frames.append([])
+            try:
+                end = it.exec_block(blks[0].body, st)
+            except AnalysisError as e:
+                ctx.undecided('%s: symbol look-up not evaluable for %r: %s' % (q, sym, str(e)[:80]))
+            it.frames.pop()
+            got = end.env.get('denominator') if end is not None else 'raise'
+            n += 1
+            if isinstance(got, S):
+                ctx.undecided('%s: symbol look-up for %r is not concrete: %s' % (q, sym, show(term(got))[:80]))
+            if got != den:
+                wrong.append((sym, got, den))
+        ctx.saw('%s: %d symbols looked up, wrong: %s' % (q, len(it_tab) - 1, wrong))
+        if wrong:
+            ctx.violate(q, 'denominator symbols resolve to another denominator: %s' % ', '.join('%r -> %s (table: %s)' % w for w in wrong), blks[0],
+                        "Value(5, 'da') is 0.5 coin instead of 50 coins")
+    ctx.floor(n, 50, 'symbol look-ups evaluated')
